@@ -70,3 +70,19 @@ Fixpoint spec_trace (sp : rspec) (ops : list rop) : list (rout * (Z * bool * Z))
   | op :: t => let '(o, sp') := spec_step sp op in
                (o, (sp_hi sp', spec_finished sp', sp_del sp')) :: (if is_reset o then [] else spec_trace sp' t)
   end.
+
+(* whole-history observation that ignores the end marker: delivered bytes, FinalSizeError?, reset
+   accepted?, highest_offset, starting_offset() *)
+Definition bytes_of (o : rout) : list Z := match o with RData d _ => d | _ => [] end.
+Definition is_fse (o : rout) : bool := match o with RFinalSizeError => true | _ => false end.
+Definition wobs (o : rout) (h s : Z) := (bytes_of o, is_fse o, is_reset o, h, s).
+Fixpoint recv_wtrace (st : recv) (ops : list rop) :=
+  match ops with
+  | [] => []
+  | op :: t => let '(o, st') := recv_step st op in wobs o (r_highest st') (r_start st') :: recv_wtrace st' t
+  end.
+Fixpoint spec_wtrace (sp : rspec) (ops : list rop) :=
+  match ops with
+  | [] => []
+  | op :: t => let '(o, sp') := spec_step sp op in wobs o (sp_hi sp') (sp_del sp') :: spec_wtrace sp' t
+  end.
